@@ -35,6 +35,7 @@ var probes = map[string]bool{
 	"hub.Hub.HandleConnectionClosed":              true,
 	"hub.Hub.HandleShipHandshakeStateUpdate":      true,
 	"hub.Hub.initateConnection":                   true,
+	"hub.Hub.registerConnection":                  true,
 	"mdns.AvahiProvider.Announce":                 true,
 	"mdns.AvahiProvider.Unannounce":               true,
 }
